@@ -58,8 +58,11 @@ def run(prog, tier):
     # chain_length derived from the store
     src = {U(s.targets[0]): U(s.value) for s in eadv.body if isinstance(s, ast.Assign)}
     obs.append(struct_ob("ensemble-length", qual(c, eadv), src.get("self.chain_length") in ("self.sample_probs.size", "len(self.sample_probs)",
-                                                                                            "self.sample_probs.shape[0]"),
-                         f"chain_length must be the size of the stored log-probabilities; is `{src.get('self.chain_length')}`",
+                                                                                            "self.sample_probs.shape[0]",
+                                                                                            # one row per stored log-probability (the two
+                                                                                            # stores grow by the same walkers: ensemble-append)
+                                                                                            "self.sample.shape[0]", "len(self.sample)"),
+                         f"chain_length must be the size of the stored log-probabilities (or the row count of the stored sample); is `{src.get('self.chain_length')}`",
                          c.module.relpath, eadv.lineno))
 
     # ---------------------------------------------------------------- equal-steps: take_steps / worker
